@@ -6,7 +6,7 @@ Kronecker products (`tensor_product`, `gln_adjoint`), representations assembled 
 import Mathlib.LinearAlgebra.Matrix.Kronecker
 import GT.Lemmas.RepHom
 
-namespace GT
+namespace GT.RepW
 open Matrix
 
 namespace Rep
@@ -187,7 +187,7 @@ theorem value_of_letters {τ : Rep n R} (hc : τ.Coherent) (names : List Gen)
 /-! ### `tensor_product` -/
 
 theorem asymGens_mem_keys (ρ : Rep n R) {g : Gen} (hg : g ∈ ρ.asymGens) : g ∈ ρ.gens.map Prod.fst := by
-  unfold asymGens GT.asymGens at hg
+  unfold asymGens GT.RepW.asymGens at hg
   exact (List.mem_filter.1 hg).1
 
 theorem genM_of_asym (ρ : Rep n R) {g : Gen} (hg : g ∈ ρ.asymGens) : ∃ A, ρ.genM g = .ok A := by
@@ -521,4 +521,4 @@ theorem subgroup_value {invert : DMat n n R → Option (DMat n n R)} (hinv : Inv
     rw [e2]; exact hG
 
 end Rep
-end GT
+end GT.RepW
